@@ -1,0 +1,34 @@
+//! Verification hooks (crate feature `verif-hooks`, off by default).
+//!
+//! Read-only views of training internals for an external verification framework: the quantised
+//! weight the learner assigned to every feature, recorded while a model is assembled.
+//! Nothing here changes the behaviour of the crate.
+use std::cell::RefCell;
+use std::string::String;
+use std::vec::Vec;
+
+/// One record of the training trace.
+#[derive(Clone, Debug, PartialEq, Eq)]
+pub enum TraceItem {
+    /// quantised bias of the boundary model
+    Bias(i32),
+    /// `(feature description, quantised weight)` of a boundary feature (zero weights included)
+    Feature(String, i32),
+    /// `(token, tag category, class, quantised bias)` of a tag classifier
+    TagBias(String, usize, usize, i32),
+    /// `(token, tag category, class, feature description, quantised weight)` of a tag feature
+    TagFeature(String, usize, usize, String, i32),
+}
+
+thread_local! {
+    static TRACE: RefCell<Vec<TraceItem>> = const { RefCell::new(Vec::new()) };
+}
+
+pub(crate) fn push(item: TraceItem) {
+    TRACE.with(|t| t.borrow_mut().push(item));
+}
+
+/// Returns and clears the trace recorded by training calls on this thread.
+pub fn take_trace() -> Vec<TraceItem> {
+    TRACE.with(|t| core::mem::take(&mut *t.borrow_mut()))
+}
